@@ -134,6 +134,8 @@ def docShape : Nat → String
   | 11 => "struct{P *string p,omitempty; Q int q}"
   | 12 => "struct{A string a; Q int q; R *bool r,omitempty}"
   | 13 => "struct{P string p; Q *int q,omitempty; S string s}"
+  -- 14: `$ref Z` where Z carries x-go-name ZRenamed; 15: `$ref ZAlias` where ZAlias is nothing but `$ref Z`
+  | 14 => "ZRenamed" | 15 => "ZAlias"
   | _ => "?"
 
 /-- as the member `m` of `H` the item type is named after the path to it -/
